@@ -2,7 +2,7 @@ from checks import durab_common as dc
 
 SPEC = dc.spec(
     "C01", ["C01_guarded", "C01_contents", "C01_acknowledged_are_committed", "C01_fixed_rows", "C01_refuted"],
-    "Durab.c01_prop", 4, 40,
+    "Durab.c01_prop", 4, 24,
     level_text="Coq theorem C01_guarded (+C01_contents): for EVERY schedule of the server, every positive block-length function and EVERY "
                "prefix of the file-mutating system calls outside a continuation-write window, the restart succeeds and the recovered "
                "files hold, in every fixed slot, the value of the last committed command that wrote it, and in every variable interval "
